@@ -1,7 +1,7 @@
 """C18 - remote contexts are unique per id, supply their workers' work, and clean up."""
 import ast
 
-from ..astutil import (AnalysisError, dotted, calls_in, last_attr, receiver, norm, is_name, walk_local, is_self_attr,
+from ..astutil import (canon, split_if, facts_at, AnalysisError, dotted, calls_in, last_attr, receiver, norm, is_name, walk_local, is_self_attr,
                        loc, short, parent_map, names_in)
 from ..cfg import is_flow, path_str
 
@@ -37,6 +37,7 @@ def run(ctx):
     ctx.require(idv is not None, 'RemoteServer.run: header unpacking not found')
     # further locals of run by role: the context payload, the reply, the looked-up context, the context being deleted
     PAY = RES = CTXV = CUR = None
+    pm_run = parent_map(f.node)
     for st in walk_local(f.node):
         if isinstance(st, ast.Assign) and isinstance(st.targets[0], ast.Name) and isinstance(st.value, ast.Call):
             v, t = st.value, st.targets[0].id
@@ -44,7 +45,7 @@ def run(ctx):
                 PAY = t
             if last_attr(v) == 'get' and receiver(v) == 'self.contexts':
                 CTXV = t
-            if last_attr(v) == 'pop' and receiver(v) == 'self.contexts':
+            if last_attr(v) == 'pop' and receiver(v) == 'self.contexts' and (CUR is None or PAY is None or (f'{PAY} is None', True) in facts_at(pm_run, st)):
                 CUR = t
     for c in calls_in(f.node):
         if last_attr(c) == 'send_msg' and len(c.args) >= 2 and isinstance(c.args[1], ast.Name) and is_name(c.args[0], cli):
@@ -59,15 +60,10 @@ def run(ctx):
             n_acc += 1
             if isinstance(n.ctx, ast.Store):
                 pm = parent_map(f.node)
-                cur, guarded = n, False
-                prev = n
-                while cur in pm:
-                    prev, cur = cur, pm[cur]
-                    if isinstance(cur, ast.If):
-                        t = norm(cur.test)
-                        in_else = any(prev is x or any(prev is y for y in ast.walk(x)) for x in cur.orelse)
-                        if (t == f'{idv} in self.contexts' and in_else) or (t == f'{idv} not in self.contexts' and not in_else):
-                            guarded = True
+                stn = n
+                while stn in pm and not isinstance(stn, ast.stmt):
+                    stn = pm[stn]
+                guarded = (f'{idv} in self.contexts', False) in facts_at(pm, stn)      # polarity-free
                 ctx.check('R1', 'the context table is written only when the id is not registered yet', guarded, 'RemoteServer.run', 'context-overwrite',
                           'registering an id that already exists replaces the first context instead of failing: its workers lose their work and are never cleaned up', where=loc(f, n))
             elif isinstance(n.ctx, ast.Load):
@@ -99,23 +95,26 @@ def run(ctx):
             removal = n
         if removal is None:
             continue
-        cur, in_delete = removal, False
-        prev = removal
-        while cur in pm0:
-            prev, cur = cur, pm0[cur]
-            if isinstance(cur, ast.If) and isinstance(cur.test, ast.Compare) and isinstance(cur.test.ops[0], ast.Is) and isinstance(cur.test.left, ast.Name) and cur.test.left.id in msg_vars \
-                    and isinstance(cur.test.comparators[0], ast.Constant) and cur.test.comparators[0].value is None and any(prev is x or any(prev is y for y in ast.walk(x)) for x in cur.body):
-                in_delete = True
+        stn = removal
+        while stn in pm0 and not isinstance(stn, ast.stmt):
+            stn = pm0[stn]
+        in_delete = bool({(f'{v} is None', True) for v in msg_vars} & facts_at(pm0, stn))      # polarity-free
         ctx.check('R1', 'a context is removed from the table only by a delete request', in_delete, 'RemoteServer.run', 'context-removed-outside-delete',
                   f'`{norm(removal)}` removes a context outside the delete branch: a context can disappear (e.g. the first one, when the reply to a refused duplicate cannot be delivered) '
                   'although nobody deleted it - its workers die and the id can be registered again', where=loc(f, removal))
     # duplicate -> False reply
-    dup = [st for st in walk_local(f.node) if isinstance(st, ast.If) and norm(st.test) == f'{idv} in self.contexts']
-    ok = bool(dup) and any(isinstance(x, ast.Assign) and is_name(x.targets[0], RES) and isinstance(x.value, ast.Constant) and x.value.value is False for x in dup[0].body)
+    dup = [st for st in walk_local(f.node) if isinstance(st, ast.If) and canon(st.test)[0] == f'{idv} in self.contexts']
+    dup_body = split_if(dup[0], lambda t: True)[0] if dup else []
+    ok = bool(dup) and any(isinstance(x, ast.Assign) and is_name(x.targets[0], RES) and isinstance(x.value, ast.Constant) and x.value.value is False for x in dup_body)
     ctx.check('R1', 'registering an existing id answers False', ok, 'RemoteServer.run', 'duplicate-not-refused', 'a duplicate registration is not refused', where=loc(f, dup[0]) if dup else loc(f, f.node))
     # unknown context for a worker request -> skipped
-    unk = [st for st in walk_local(f.node) if isinstance(st, ast.If) and norm(st.test) in (f'{CTXV} is None', f'not {CTXV}')]
-    ok = bool(unk) and any(isinstance(x, ast.Continue) for x in unk[0].body)
+    unk = []
+    for st in walk_local(f.node):
+        if isinstance(st, ast.If):
+            sp = split_if(st, lambda t: norm(t) in (f'{CTXV} is None', CTXV))
+            if sp:
+                unk.append(sp[0] if canon(st.test)[0] == f'{CTXV} is None' else sp[1])     # statements run when the context is unknown
+    ok = bool(unk) and any(isinstance(x, ast.Continue) for x in unk[0])
     ctx.check('R1', 'a worker request naming an unknown context is skipped', ok, 'RemoteServer.run', 'unknown-context-not-skipped',
               'a worker request naming an unknown context is not skipped: ctx.call on None kills the server', where=loc(f, f.node))
     # every context operation is answered
@@ -130,13 +129,14 @@ def run(ctx):
     ctx.check('R1', 'the reply defaults to True', bool(rinit), 'RemoteServer.run', 'reply-default', 'the reply of a context operation has no default', where=loc(f, f.node))
 
     # ---------------------------------------------------------------- R3 delete chain
-    dele = [st for st in walk_local(f.node) if isinstance(st, ast.If) and norm(st.test) == f'{PAY} is None']
+    dele = [st for st in walk_local(f.node) if isinstance(st, ast.If) and canon(st.test)[0] == f'{PAY} is None']
     ok = False
+    dele_body = split_if(dele[0], lambda t: True)[0] if dele else []
     if dele:
-        calls = [(last_attr(c), receiver(c)) for x in dele[0].body for c in calls_in(x)]
+        calls = [(last_attr(c), receiver(c)) for x in dele_body for c in calls_in(x)]
         names = [m for m, r in calls if r == CUR]
         ok = 'wait' in names and 'terminate' in names and names.index('wait') < names.index('terminate')
-        w = [c for x in dele[0].body for c in calls_in(x) if last_attr(c) == 'wait' and receiver(c) == CUR]
+        w = [c for x in dele_body for c in calls_in(x) if last_attr(c) == 'wait' and receiver(c) == CUR]
         ok = ok and bool(w) and any(k.arg == 'timeout' for k in w[0].keywords)
     ctx.check('R3', 'deleting a context waits (bounded) for it and then terminates it', ok, 'RemoteServer.run', 'delete-chain',
               'deleting a context does not end its helper (wait then terminate): its workers keep running and the id cannot be reused safely', where=loc(f, dele[0]) if dele else loc(f, f.node))
